@@ -117,12 +117,58 @@ type encRun struct {
 	res      *vh.Result
 	em       *emitter
 	distinct vh.Distinct
+	ring     []keptDoc // documents returned by earlier encodes, re-validated after later ones
+}
+
+// keptDoc: the slice ProtoToJSON returned (not a copy) and a copy taken at once.
+type keptDoc struct {
+	orig   []byte
+	copy   string
+	in     map[string]any
+	caseNo int
+	stream string
+	later  int // encodes made since
+}
+
+// keepDoc / recheckDocs: "every successful encoding is a document" must stay true of the bytes the
+// caller was handed: a document returned by encode k is looked at again after encodes k+1..k+3 of
+// other messages — it must still be the same bytes (and hence the same well-formed document).
+func (er *encRun) keepDoc(o encObs, in map[string]any, caseNo int, stream string) {
+	for i := range er.ring {
+		er.ring[i].later++
+	}
+	er.recheckDocs(3)
+	if o.Kind == "ok" {
+		er.ring = append(er.ring, keptDoc{orig: o.Out, copy: string(o.Out), in: in, caseNo: caseNo, stream: stream})
+	}
+}
+
+func (er *encRun) recheckDocs(minLater int) {
+	kept := er.ring[:0]
+	for _, d := range er.ring {
+		if d.later < minLater {
+			kept = append(kept, d)
+			continue
+		}
+		if string(d.orig) != d.copy {
+			er.res.Fail(vh.Failure{Case: d.caseNo, Stream: d.stream, Sig: "C08 returned document changes after a later encode",
+				Clause: "every successful encoding is one well-formed JSON document", Input: d.in,
+				Got: fmt.Sprintf("returned %s, after %d later encodes the same bytes read %s", short([]byte(d.copy)), d.later, short(d.orig))})
+		} else {
+			er.res.Count("returned_document_unchanged_after_later_encodes")
+		}
+	}
+	er.ring = kept
 }
 
 // encodeCase runs one message through the real encoder, the C08 oracle and emits the model case.
 func (er *encRun) encodeCase(stream string, t *target, m protoreflect.Message, model bool) (encObs, *msgFacts) {
 	res := er.res
 	o := encodeMsg(theCodec, m)
+	er.keepDoc(o, map[string]any{"type": t.Env.Root, "message": shortMsg(m)}, er.em.caseNo, stream)
+	if o.Kind == "ok" {
+		o.Out = []byte(string(o.Out)) // everything below looks at the document as it was returned
+	}
 	facts := factsOf(m)
 	term := msgTerm(m)
 	er.distinct.Add(t.Name + term)
@@ -214,7 +260,7 @@ func handMessages() []*schema_testpb.FullSchema {
 func runC08(cfg *vh.Config) error {
 	res := vh.NewResult("C08", cfg.Seed)
 	res.Rule = "messages of test.schema.v1.FullSchema (and its oneof/nested types as roots) and of generated dynamic descriptors, filled through protoreflect: hand-written one-field messages for every field class; random messages with integer boundaries, escapes / controls / non-BMP text, every oneof arm, maps, arrays, nesting depth 1-5, optional-with-zero, both Any flavours; a wide stream with NaN/Inf, years < 1 and > 9999, months/days out of range, timestamps outside 0001-9999 and with denormal nanos; a malformed stream (invalid UTF-8, undefined enum numbers, unknown Any types); library streams for appendString, FormatInt, base64, time.Format, DateString, JSON validity. non-trivial = distinct (type, message) other than the empty message"
-	targets, err := loadTargets()
+	targets, nFixed, err := loadTargets(cfg, res)
 	if err != nil {
 		return err
 	}
@@ -262,6 +308,16 @@ func runC08(cfg *vh.Config) error {
 		g.fill(m, 1)
 		er.encodeCase("message", t, m, true)
 	}
+	// messages of the schemas generated for this run (compiled j5s packages, raw descriptors)
+	if gen := targets[nFixed:]; len(gen) > 0 {
+		for i := 0; i < cfg.Scale(300, 4000); i++ {
+			t := vh.Pick(r, gen)
+			g := &msgGen{r: r, maxDepth: r.Range(1, 4), fieldPct: vh.Pick(r, []int{20, 40, 70}), maxEntries: r.Range(1, 3), emptySubs: vh.Pick(r, []int{0, 10, 30}), wide: r.Chance(15)}
+			m := t.New()
+			g.fill(m, 1)
+			er.encodeCase("generated-schema", t, m, true)
+		}
+	}
 	nWide := cfg.Scale(250, 6000)
 	for i := 0; i < nWide; i++ {
 		t := pick()
@@ -278,6 +334,53 @@ func runC08(cfg *vh.Config) error {
 		g.fill(m, 1)
 		er.encodeCase("malformed", t, m, true)
 	}
+
+	// ---- Codec.EncodeAny -> store in a parent's j5 Any field -> encode the parent with the same codec:
+	// the value embedded in the parent is the payload's own encoding
+	for i := 0; i < cfg.Scale(60, 1200); i++ {
+		g := &msgGen{r: r}
+		p := g.anyPayload()
+		if !validUTF8Payload(p) {
+			continue
+		}
+		in := map[string]any{"type": "test.schema.v1.FullSchema", "message": "j5any = EncodeAny(" + shortMsg(p.ProtoReflect()) + ")"}
+		caseNo := em.caseNo
+		em.caseNo++
+		res.Count("any-sequence")
+		a, err := theCodec.EncodeAny(p.ProtoReflect())
+		if err != nil {
+			continue
+		}
+		payload := string(a.J5Json) // copy at once
+		parent := &schema_testpb.FullSchema{SString: "padding-" + g.text(), J5Any: a}
+		o := encodeMsg(theCodec, parent.ProtoReflect())
+		if o.Kind != "ok" {
+			continue
+		}
+		doc := []byte(string(o.Out))
+		root, perr := parseStrict(doc)
+		if perr != nil {
+			res.Fail(vh.Failure{Case: caseNo, Stream: "any-sequence", Sig: "C08 returned document changes after a later encode", Clause: "every successful encoding is one well-formed JSON document", Input: in,
+				Got: "parent of an EncodeAny result is not JSON: " + short(doc) + " (payload was " + short([]byte(payload)) + ")"})
+			continue
+		}
+		if jn, c := root.member("j5any"); c == 1 && jn.kind == 'o' {
+			if vn, vc := jn.member("value"); vc == 1 {
+				var got []byte
+				printNode(&got, vn)
+				if string(got) != string(canonPrint([]byte(payload))) {
+					res.Fail(vh.Failure{Case: caseNo, Stream: "any-sequence", Sig: "C08 returned document changes after a later encode", Clause: "Any values are {!type, value}", Input: in,
+						Got: "EncodeAny returned " + short([]byte(payload)) + ", the parent embeds " + short(got)})
+					continue
+				}
+			}
+		}
+		if string(a.J5Json) != payload {
+			res.Fail(vh.Failure{Case: caseNo, Stream: "any-sequence", Sig: "C08 returned document changes after a later encode", Clause: "every successful encoding is one well-formed JSON document", Input: in,
+				Got: "EncodeAny returned " + short([]byte(payload)) + ", after encoding the parent the same bytes read " + short(a.J5Json)})
+		}
+	}
+	er.recheckDocs(1)
 
 	// ---- library streams: the printers, each against the real Go function
 	libPrinters(cfg, er)
